@@ -20,7 +20,49 @@ type pool3 struct {
 	b    *bus.Bus
 	s    *swap.SwapV2
 	ver  uint64
-	live map[uint32][3]*big.Int // harness-side shadow of live orders (dir, b, s) for generation only
+	live map[uint32][3]*big.Int // harness-side shadow of live orders (dir, b, s), maintained from the implementation's own outputs
+	mon  []MonitorFailure
+	hist []string
+	restarted bool
+	trades, fills, refunds, partial int
+	filled bool
+	disk   map[uint32]bool // ids committed to the tree
+}
+
+// shadowTrade updates the shadow of live orders from the fills/closures the implementation reported.
+func (p *pool3) shadowTrade(det *swap.ChangeDetailsWithOrders, expired []*swap.Limit) {
+	for _, o := range det.Orders {
+		v, ok := p.live[o.ID()]
+		if !ok {
+			continue
+		}
+		b := new(big.Int).Sub(v[1], o.WantBuy)
+		s := new(big.Int).Sub(v[2], o.WantSell)
+		if b.Sign() <= 0 || s.Sign() <= 0 {
+			delete(p.live, o.ID())
+		} else {
+			p.live[o.ID()] = [3]*big.Int{v[0], b, s}
+		}
+	}
+	for _, o := range expired {
+		delete(p.live, o.ID())
+	}
+}
+
+// checkBook: every live order of that side must be offered (C14: nothing is skipped).
+func (p *pool3) checkBook(dir bool, m map[uint32][2]*big.Int) {
+	for id, v := range p.live {
+		if (v[0].Sign() == 1) != dir {
+			continue
+		}
+		if _, ok := m[id]; !ok {
+			key := "c14-book-missing"
+			if p.restarted {
+				key = "c14-book-missing-after-restart"
+			}
+			p.mon = append(p.mon, MonitorFailure{What: fmt.Sprintf("C14: live order %d (buy %s sell %s) is not offered by the book of its side", id, v[1], v[2]), Key: key, Replay: joinLines(p.hist)})
+		}
+	}
 }
 
 func newPool3() *pool3 {
@@ -37,6 +79,12 @@ func newPool3() *pool3 {
 }
 
 func (p *pool3) commit() {
+	if p.disk == nil {
+		p.disk = map[uint32]bool{}
+	}
+	for id := range p.live {
+		p.disk[id] = true
+	}
 	_, v, err := p.t.Commit(p.s)
 	if err != nil {
 		panic(err)
@@ -45,6 +93,7 @@ func (p *pool3) commit() {
 }
 
 func (p *pool3) restart() {
+	p.restarted = true
 	t, err := tree.NewMutableTree(p.ver, p.mem, 1024, 0)
 	if err != nil {
 		panic(err)
@@ -112,16 +161,38 @@ func joinLines(l []string) string {
 	return s
 }
 
+// sortKey is the 53-bit price in the sorted-pair orientation (what the code sorts by).
+func sortKey(dir bool, b, s *big.Int) *big.Float {
+	if dir {
+		return new(big.Float).SetPrec(53).SetRat(new(big.Rat).SetFrac(s, b))
+	}
+	return new(big.Float).SetPrec(53).SetRat(new(big.Rat).SetFrac(b, s))
+}
+
+var bookOrderFailures []MonitorFailure
+
 func (p *pool3) book(dir bool) (v []*big.Int, m map[uint32][2]*big.Int) {
 	m = map[uint32][2]*big.Int{}
 	pr := p.pair(dir)
 	n := 0
 	var items []*big.Int
+	var prev *swap.Limit
 	for i := 0; i < 10000; i++ {
 		o := pr.OrderSellByIndex(i)
 		if o == nil {
 			break
 		}
+		if prev != nil {
+			// C14 priority: best price for the taker first, lower id first among equal 53-bit prices
+			c := sortKey(dir, prev.WantBuy, prev.WantSell).Cmp(sortKey(dir, o.WantBuy, o.WantSell))
+			if !dir {
+				c = -c
+			}
+			if c < 0 || (c == 0 && prev.ID() > o.ID()) {
+				bookOrderFailures = append(bookOrderFailures, MonitorFailure{What: fmt.Sprintf("C14: book out of priority order: order %d (buy %s sell %s) is offered before order %d (buy %s sell %s)", prev.ID(), prev.WantBuy, prev.WantSell, o.ID(), o.WantBuy, o.WantSell), Key: "c14-book-order"})
+			}
+		}
+		prev = o
 		n++
 		items = append(items, Z(int64(o.ID())), cp(o.WantBuy), cp(o.WantSell))
 		m[o.ID()] = [2]*big.Int{cp(o.WantBuy), cp(o.WantSell)}
@@ -129,20 +200,156 @@ func (p *pool3) book(dir bool) (v []*big.Int, m map[uint32][2]*big.Int) {
 	return append(L(Z(int64(n))), items...), m
 }
 
-func runPool3(seed uint64, n int, out, stats string, _ []string) {
+
+// exec performs one operation on the real pair and returns the canonical output; it also
+// runs the C13/C14 monitors and maintains the shadow of live orders.
+func (p *pool3) exec(op []*big.Int) []*big.Int {
+	dirOf := func(z *big.Int) bool { return z.Sign() == 1 }
+	p.hist = append(p.hist, "> "+ints(op))
+	res := p.exec1(op, dirOf)
+	p.hist = append(p.hist, "< "+ints(res))
+	return res
+}
+
+func encCalc(o *big.Int, os []*swap.Limit) []*big.Int {
+	if o == nil {
+		return L(Z(1))
+	}
+	w := L(Z(0), o, Z(int64(len(os))))
+	for _, x := range os {
+		w = append(w, Z(int64(x.ID())), cp(x.WantBuy), cp(x.WantSell))
+	}
+	return w
+}
+
+func (p *pool3) exec1(op []*big.Int, dirOf func(*big.Int) bool) []*big.Int {
+	switch op[0].Int64() {
+	case 0:
+		return guard(func() []*big.Int {
+			_, _, l, _ := p.s.PairCreate(0, 1, cp(op[1]), cp(op[2]))
+			p.commit()
+			return L(Z(0), l)
+		})
+	case 1:
+		return guard(func() []*big.Int {
+			var id uint32
+			dir := dirOf(op[1])
+			if dir {
+				id, _ = p.s.PairAddOrder(0, 1, cp(op[2]), cp(op[3]), ownerAddr(op[4].Int64()), op[5].Uint64())
+			} else {
+				id, _ = p.s.PairAddOrder(1, 0, cp(op[2]), cp(op[3]), ownerAddr(op[4].Int64()), op[5].Uint64())
+			}
+			p.live[id] = [3]*big.Int{cp(op[1]), cp(op[2]), cp(op[3])}
+			return L(Z(int64(id)))
+		})
+	case 2, 3:
+		dir := dirOf(op[1])
+		pr := p.pair(dir)
+		x0, x1 := pr.Reserves()
+		_, before := p.book(dir)
+		p.checkBook(dir, before)
+		return guard(func() []*big.Int {
+			var in, o *big.Int
+			var det *swap.ChangeDetailsWithOrders
+			var exp []*swap.Limit
+			if op[0].Int64() == 2 {
+				in = cp(op[2])
+				o, _, det, exp = pr.SellWithOrders(cp(op[2]))
+			} else {
+				o = cp(op[2])
+				in, _, det, exp = pr.BuyWithOrders(cp(op[2]))
+			}
+			monitorTrade(&p.mon, &p.hist, x0, x1, p.pair(dir), det, before)
+			p.shadowTrade(det, exp)
+			p.trades++
+			p.fills += len(det.Orders)
+			p.refunds += len(exp)
+			if len(det.Orders) > 0 {
+				p.filled = true
+				last := det.Orders[len(det.Orders)-1]
+				if bs, ok := before[last.ID()]; ok && last.WantBuy.Cmp(bs[0]) < 0 {
+					p.partial++
+				}
+			}
+			return encTrade(in, o, p.pair(dir), det, exp)
+		})
+	case 4:
+		return guard(func() []*big.Int {
+			id := uint32(op[1].Int64())
+			_, vol := p.s.PairRemoveLimitOrder(id)
+			if v, ok := p.live[id]; ok && !p.disk[id] {
+				_ = v // not yet committed: the transaction-level check rejects it (order not found on disk)
+				if vol.Sign() != 0 {
+					p.mon = append(p.mon, MonitorFailure{What: fmt.Sprintf("C14: cancelling uncommitted order %d returned %s", id, vol), Key: "c14-cancel-amount", Replay: joinLines(p.hist)})
+				}
+			} else if ok {
+				if vol.Cmp(v[2]) != 0 {
+					p.mon = append(p.mon, MonitorFailure{What: fmt.Sprintf("C14: cancelling order %d returned %s, unfilled amount is %s", id, vol, v[2]), Key: "c14-cancel-amount", Replay: joinLines(p.hist)})
+				}
+				delete(p.live, id)
+			} else if vol.Sign() != 0 {
+				p.mon = append(p.mon, MonitorFailure{What: fmt.Sprintf("C14: cancelling order %d that is not live returned %s", id, vol), Key: "c14-double-cancel", Replay: joinLines(p.hist)})
+			}
+			return L(cp(vol))
+		})
+	case 5:
+		p.commit()
+		return L(Z(0))
+	case 6:
+		b, m := p.book(dirOf(op[1]))
+		p.checkBook(dirOf(op[1]), m)
+		return b
+	case 7:
+		p.restart()
+		return L(Z(0))
+	case 8:
+		return guard(func() []*big.Int {
+			return encCalc(p.pair(dirOf(op[1])).CalculateBuyForSellWithOrders(cp(op[2])))
+		})
+	case 9:
+		return guard(func() []*big.Int {
+			return encCalc(p.pair(dirOf(op[1])).CalculateSellForBuyWithOrders(cp(op[2])))
+		})
+	}
+	return L(Z(-1))
+}
+
+func runPool3(seed uint64, n int, out, stats string, args []string) {
 	r := NewRng(seed)
 	c := NewCases(out)
 	var mon []MonitorFailure
 	trades, fills, refunds, partial := 0, 0, 0, 0
+	finish := func(p *pool3, nt bool, kind string) {
+		for _, bf := range bookOrderFailures {
+			bf.Replay = joinLines(p.hist)
+			p.mon = append(p.mon, bf)
+		}
+		bookOrderFailures = nil
+		mon = append(mon, p.mon...)
+		trades += p.trades
+		fills += p.fills
+		refunds += p.refunds
+		partial += p.partial
+		c.End(nt, kind)
+	}
+	// corpus first: minimised failures kept under /verif/corpus (args: list of .ops files)
+	for _, f := range args {
+		p := newPool3()
+		c.Begin(3)
+		for _, op := range readOps(f) {
+			c.Op(op, p.exec(op))
+		}
+		finish(p, true, "corpus")
+	}
 	for i := 0; i < n; i++ {
 		p := newPool3()
 		c.Begin(3)
-		var replay []string
-		rec := func(in, outv []*big.Int) {
-			c.Op(in, outv)
-			replay = append(replay, "> "+ints(in), "< "+ints(outv))
+		do := func(op []*big.Int) []*big.Int {
+			v := p.exec(op)
+			c.Op(op, v)
+			return v
 		}
-		// reserves around 1e18..1e24 so that orders above the minimum volume matter
+		// reserves around 1e12..1e30 so that orders above the minimum volume matter
 		var r0, r1 *big.Int
 		switch r.Intn(3) {
 		case 0:
@@ -152,30 +359,22 @@ func runPool3(seed uint64, n int, out, stats string, _ []string) {
 		default:
 			r0, r1 = ZS("1000000000000000000000"), ZS("1000000000000000000000")
 		}
-		var l0 *big.Int
-		func() {
-			_, _, l0, _ = p.s.PairCreate(0, 1, cp(r0), cp(r1))
-		}()
-		rec(L(Z(0), r0, r1), L(Z(0), l0))
-		p.commit()
+		do(L(Z(0), r0, r1))
 		nops := 3 + r.Intn(14)
-		nt := false
 		for j := 0; j < nops; j++ {
 			dir := r.Intn(3) != 0
 			dz := Z(0)
 			if dir {
 				dz = Z(1)
 			}
-			pr := p.pair(dir)
-			x0, x1 := pr.Reserves()
+			x0, x1 := p.pair(dir).Reserves()
 			switch k := r.Intn(12); {
-			case k < 4: // add order near the pool price (mostly better for the maker than the pool)
+			case k < 4: // add an order near the pool price
 				b := new(big.Int).Add(r.BigBelow(new(big.Int).Div(x0, Z(int64(2+r.Intn(50))))), ZS("20000000000"))
-				// s ~ b * x1/x0 * (0.5..1.1)
 				s := new(big.Int).Div(new(big.Int).Mul(b, x1), x0)
-				s.Mul(s, Z(int64(500+r.Intn(600))))
+				s.Mul(s, Z(int64(500+r.Intn(900))))
 				s.Div(s, Z(1000))
-				if r.Intn(6) == 0 && len(p.live) > 0 { // same price as an existing order (tie at 53 bits)
+				if r.Intn(5) == 0 && len(p.live) > 0 { // same exact price as an existing order (tie at 53 bits)
 					for _, v := range p.live {
 						if (v[0].Sign() == 1) == dir {
 							b, s = cp(v[1]), cp(v[2])
@@ -190,138 +389,53 @@ func runPool3(seed uint64, n int, out, stats string, _ []string) {
 				if s.Cmp(ZS("10000000000")) < 0 {
 					s = ZS("10000000000")
 				}
-				owner := int64(1 + r.Intn(5))
-				var id uint32
-				v := guard(func() []*big.Int {
-					if dir {
-						id, _ = p.s.PairAddOrder(0, 1, cp(b), cp(s), ownerAddr(owner), uint64(10+j))
-					} else {
-						id, _ = p.s.PairAddOrder(1, 0, cp(b), cp(s), ownerAddr(owner), uint64(10+j))
-					}
-					return L(Z(int64(id)))
-				})
-				rec(L(Z(1), dz, b, s, Z(owner), Z(int64(10+j))), v)
-				dd := Z(0)
-				if dir {
-					dd = Z(1)
-				}
-				p.live[id] = [3]*big.Int{dd, b, s}
+				do(L(Z(1), dz, b, s, Z(int64(1+r.Intn(5))), Z(int64(10+j))))
 			case k < 7: // sell
 				a := r.BigBelow(new(big.Int).Div(x0, Z(int64(1+r.Intn(20)))))
 				if r.Intn(10) == 0 {
 					a = Z(int64(r.Intn(3000)))
 				}
-				_, before := p.book(dir)
-				v := guard(func() []*big.Int {
-					o, _, det, exp := pr.SellWithOrders(cp(a))
-					monitorTrade(&mon, &replay, x0, x1, p.pair(dir), det, before)
-					trades++
-					fills += len(det.Orders)
-					refunds += len(exp)
-					if len(det.Orders) > 0 {
-						nt = true
-						last := det.Orders[len(det.Orders)-1]
-						if bs, ok := before[last.ID()]; ok && last.WantBuy.Cmp(bs[0]) < 0 {
-							partial++
-						}
-					}
-					return encTrade(a, o, p.pair(dir), det, exp)
-				})
-				rec(L(Z(2), dz, a), v)
+				do(L(Z(2), dz, a))
 			case k < 9: // buy
 				o := r.BigBelow(new(big.Int).Div(x1, Z(int64(1+r.Intn(20)))))
 				if r.Intn(10) == 0 {
 					o = Z(int64(r.Intn(3000)))
 				}
-				_, before := p.book(dir)
-				v := guard(func() []*big.Int {
-					in, _, det, exp := pr.BuyWithOrders(cp(o))
-					monitorTrade(&mon, &replay, x0, x1, p.pair(dir), det, before)
-					trades++
-					fills += len(det.Orders)
-					refunds += len(exp)
-					if len(det.Orders) > 0 {
-						nt = true
+				do(L(Z(3), dz, o))
+			case k < 10: // (mostly commit, then) cancel a random known order id, twice
+				if r.Intn(3) != 0 {
+					do(L(Z(5)))
+					if r.Intn(3) == 0 {
+						do(L(Z(7)))
 					}
-					return encTrade(in, o, p.pair(dir), det, exp)
-				})
-				rec(L(Z(3), dz, o), v)
-			case k < 10: // commit, then remove a random known order id
-				p.commit()
-				rec(L(Z(5)), L(Z(0)))
-				id := uint32(1 + r.Intn(len(p.live)+2))
-				v := guard(func() []*big.Int {
-					_, vol := p.s.PairRemoveLimitOrder(id)
-					return L(cp(vol))
-				})
-				rec(L(Z(4), Z(int64(id))), v)
-				// second removal must return nothing
-				v2 := guard(func() []*big.Int {
-					_, vol := p.s.PairRemoveLimitOrder(id)
-					return L(cp(vol))
-				})
-				if len(v2) == 1 && v2[0].Sign() != 0 {
-					mon = append(mon, MonitorFailure{What: fmt.Sprintf("C14: order %d cancelled twice, second cancel returned %s", id, v2[0]), Key: "c14-double-cancel", Replay: joinLines(replay)})
 				}
-				rec(L(Z(4), Z(int64(id))), v2)
+				id := Z(int64(1 + r.Intn(len(p.live)+2)))
+				do(L(Z(4), id))
+				do(L(Z(4), id))
 			case k < 11:
 				if r.Bool() {
-					p.commit()
-					rec(L(Z(5)), L(Z(0)))
-					if r.Intn(3) == 0 {
-						p.restart()
-						rec(L(Z(7)), L(Z(0)))
+					do(L(Z(5)))
+					if r.Intn(2) == 0 {
+						do(L(Z(7)))
 					}
 				} else {
-					bk, _ := p.book(dir)
-					rec(L(Z(6), dz), bk)
+					do(L(Z(6), dz))
 				}
 			default: // read-only calculation
 				if r.Bool() {
-					a := r.BigBelow(x0)
-					v := guard(func() []*big.Int {
-						o, os := pr.CalculateBuyForSellWithOrders(cp(a))
-						if o == nil {
-							return L(Z(1))
-						}
-						w := L(Z(0), o, Z(int64(len(os))))
-						for _, x := range os {
-							w = append(w, Z(int64(x.ID())), cp(x.WantBuy), cp(x.WantSell))
-						}
-						return w
-					})
-					rec(L(Z(8), dz, a), v)
+					do(L(Z(8), dz, r.BigBelow(x0)))
 				} else {
-					o := r.BigBelow(x1)
-					v := guard(func() []*big.Int {
-						in, os := pr.CalculateSellForBuyWithOrders(cp(o))
-						if in == nil {
-							return L(Z(1))
-						}
-						w := L(Z(0), in, Z(int64(len(os))))
-						for _, x := range os {
-							w = append(w, Z(int64(x.ID())), cp(x.WantBuy), cp(x.WantSell))
-						}
-						return w
-					})
-					rec(L(Z(9), dz, o), v)
+					do(L(Z(9), dz, r.BigBelow(x1)))
 				}
 			}
 		}
-		// final books
-		for _, d := range []bool{true, false} {
-			bk, _ := p.book(d)
-			dz := Z(0)
-			if d {
-				dz = Z(1)
-			}
-			rec(L(Z(6), dz), bk)
-		}
-		c.End(nt, fmt.Sprintf("len%02d", nops/4*4))
+		do(L(Z(6), Z(1)))
+		do(L(Z(6), Z(0)))
+		finish(p, p.filled, fmt.Sprintf("len%02d", nops/4*4))
 	}
 	c.Close()
 	writeStats(stats, &Stats{Property: "pool3", Seed: seed, Cases: c.NCases, Ops: c.NOps, NonTrivial: c.NonTriv,
-		Rule: "history of 3-16 operations (add order / sell / buy with orders / commit+cancel twice / commit / restart / dump book / read-only calculation) on one real PairV2 with both order sides; non-trivial = at least one trade filled at least one order; distinct = distinct history text",
+		Rule: "history of 3-16 operations (add order / sell / buy with orders / commit[+restart]+cancel twice / commit[+restart] / dump book / read-only calculation) on one real PairV2 with both order sides, corpus histories first; non-trivial = at least one trade filled at least one order; distinct = distinct history text",
 		Dist: c.Dist, Samples: c.Samples, Monitor: mon,
 		Extra: map[string]interface{}{"trades": trades, "order_fills": fills, "little_refunds": refunds, "partial_last_fills": partial}})
 }
